@@ -103,7 +103,7 @@ func New(sched *Tape) *Sim {
 		Faults: map[string]int{},
 		hash:   14695981039346656037,
 		orderHash: 14695981039346656037,
-		LatTable: []time.Duration{0, 0, 0, time.Millisecond, 7 * time.Millisecond, 30 * time.Millisecond, 150 * time.Millisecond, 900 * time.Millisecond},
+		LatTable: []time.Duration{0, 0, 0, time.Millisecond, 2 * time.Millisecond, 5 * time.Millisecond, 10 * time.Millisecond, 20 * time.Millisecond},
 	}
 	s.gs[goid()] = &G{Label: "main", id: goid()}
 	cur.Store(s)
